@@ -135,7 +135,7 @@ func NewR1() *R1 {
 }
 
 var specialForms = map[string]bool{"quote": true, "def": true, "set": true, "fn": true, "defn": true, "begin": true, "let": true,
-	"letseq": true, "newScope": true, "cond": true, "and": true, "or": true, "for": true, "break": true, "continue": true, "assert": true}
+	"letseq": true, "newScope": true, "cond": true, "and": true, "or": true, "for": true, "break": true, "continue": true, "assert": true, "syntaxQuote": true}
 
 // reserved words that def/set/defn refuse (subset relevant to generators)
 var builtinNames = map[string]bool{}
@@ -576,6 +576,11 @@ func (r *R1) evalSpecial(name string, args []*T, sc *Scope) (V, *ctl) {
 			}
 		}
 		return last, nil
+	case "syntaxQuote":
+		if len(args) != 1 {
+			panic(Unmodelled{"syntaxQuote arity"})
+		}
+		return r.template(args[0], sc)
 	case "assert":
 		if len(args) != 1 {
 			panic(Unmodelled{"assert arity"})
@@ -1167,4 +1172,60 @@ func hashSet(h *VHash, k, v V) {
 	}
 	h.K = append(h.K, k)
 	h.V = append(h.V, v)
+}
+
+// template is R4: exact substitution. The template is returned literally,
+// except that (unquote e) is replaced by the value of e and, inside a list or
+// array, (unquote-splicing e) by the elements of the list e evaluates to.
+func (r *R1) template(t *T, sc *Scope) (V, *ctl) {
+	isForm := func(x *T, head string) bool {
+		return x.K == 'l' && len(x.L) == 2 && x.L[0].K == 'y' && x.L[0].S == head
+	}
+	switch t.K {
+	case 'l', 'a':
+		if t.K == 'l' {
+			if len(t.L) == 0 {
+				return VNil{}, nil
+			}
+			if isForm(t, "unquote") {
+				return r.eval(t.L[1], sc)
+			}
+			if isForm(t, "unquote-splicing") {
+				panic(Unmodelled{"splice outside a list"})
+			}
+			if t.L[0].K == 'y' && t.L[0].S == "syntaxQuote" {
+				panic(Unmodelled{"nested syntax quote"})
+			}
+		}
+		var out []V
+		for _, c := range t.L {
+			if isForm(c, "unquote-splicing") {
+				v, cc := r.eval(c.L[1], sc)
+				if cc != nil {
+					return nil, cc
+				}
+				switch l := v.(type) {
+				case VList:
+					out = append(out, l...)
+				case VNil:
+				default:
+					panic(Unmodelled{"splice of a non-list"})
+				}
+				continue
+			}
+			v, cc := r.template(c, sc)
+			if cc != nil {
+				return nil, cc
+			}
+			out = append(out, v)
+		}
+		if t.K == 'a' {
+			return &VArr{E: out}, nil
+		}
+		if len(out) == 0 {
+			return VNil{}, nil
+		}
+		return VList(out), nil
+	}
+	return quoteVal(t), nil
 }
